@@ -31,7 +31,11 @@ class Backend:
             out.append(op)
         return CheckpointOutput(f"t{self.n}", CheckpointUpdatedExecutionState(out))
 
+    later_pages = []
+
     def get_execution_state(self, *a, **k):
+        if self.later_pages:
+            return StateOutput(self.later_pages.pop(0), None if not self.later_pages else "more")
         return StateOutput([])
 
 
@@ -44,6 +48,10 @@ def ids():
 
 
 def main():
+    try:
+        req = json.loads(sys.stdin.read() or "{}")
+    except ValueError:
+        req = {}
     backend = Backend()
     m, b1, b2 = ids()
     # history left by an earlier invocation that was cut short: the parallel and both branches are STARTED
@@ -66,7 +74,11 @@ def main():
         time.sleep(1.0)                 # give the orphaned branch time to reach its next durable operation
         return "done"
     exe = Operation("exec", OperationType.EXECUTION, OperationStatus.STARTED, execution_details=ExecutionDetails("{}"))
-    inp = DurableExecutionInvocationInputWithClient("arn", "t0", InitialExecutionState([exe] + history, ""), backend)
+    if req.get("paginated"):  # the branch records arrive on a later page of the history
+        backend.later_pages = [history[1:]]
+        inp = DurableExecutionInvocationInputWithClient("arn", "t0", InitialExecutionState([exe] + history[:1], "page2"), backend)
+    else:
+        inp = DurableExecutionInvocationInputWithClient("arn", "t0", InitialExecutionState([exe] + history, ""), backend)
     res = {}
 
     def go():
